@@ -156,6 +156,10 @@ func (b *PresentationSubmissionBuilder) Build(format string) (PresentationSubmis
 func (s PresentationSubmission) Resolve(envelope Envelope) (map[string]vc.VerifiableCredential, error) {
 	result := make(map[string]vc.VerifiableCredential)
 	for _, inputDescriptor := range s.DescriptorMap {
+		if _, exists := result[inputDescriptor.Id]; exists {
+			// a later entry would silently replace (and thereby hide) an earlier one
+			return nil, fmt.Errorf("input descriptor '%s' is mapped more than once", inputDescriptor.Id)
+		}
 		resolvedCredential, err := resolveCredential(nil, inputDescriptor, envelope.asInterface)
 		if err != nil {
 			return nil, fmt.Errorf("unable to resolve credential for input descriptor '%s': %w", inputDescriptor.Id, err)
